@@ -328,6 +328,11 @@ class _CaseFailed(Exception):
     pass
 
 
+class _StopShrinking(BaseException):
+    """Ends the Hypothesis run once the shrink budget is spent; the smallest failing
+    case seen so far is already in the recorder."""
+
+
 def run_hypothesis(legobj, rec, seed, n_examples, deadline, shrink_budget):
     """Run legobj.strategy() for n_examples; failures end up in rec."""
     import hypothesis
@@ -341,7 +346,7 @@ def run_hypothesis(legobj, rec, seed, n_examples, deadline, shrink_budget):
             rec.skipped_after_budget += 1
             return
         if state["t_fail"] is not None and now - state["t_fail"] > shrink_budget:
-            return  # stop feeding the shrinker; the smallest failure is in rec
+            raise _StopShrinking()
         f = rec.run_case(legobj, case)
         if f is not None:
             if state["t_fail"] is None:
@@ -362,7 +367,7 @@ def run_hypothesis(legobj, rec, seed, n_examples, deadline, shrink_budget):
     test = hypothesis.seed(seed)(test)
     try:
         test()
-    except _CaseFailed:
+    except (_CaseFailed, _StopShrinking):
         pass
     except HarnessError:
         raise
